@@ -6,15 +6,12 @@
    layout of server/core/storage.go (one meta record per store + two separate weight keys).
    Definitions only; proofs live in proof/C14_StoreProof.v.
 
-   Faithfulness notes (the code as it is):
-   * MergeLabels works IN PLACE on the label slice of the *served* store: values of matching
-     labels are overwritten in the shared structs, and the final compaction `res := storeLabels[:0]`
-     rewrites the served backing array unless an append re-allocated it first.  The model keeps, per
-     served label, a cell identity (two slots holding the same pointer are aliased) and the Go
-     capacity rule for slices grown by append (cap = next power of two), because the visible result
-     of a *failed* put depends on both.
-   * weights are stored under two keys of their own, written before the meta record, and are not
-     removed by RemoveTombStoneRecords.
+   Faithfulness notes (the code as it is, after the fix commits 52967fc, 5702f33, fd69f18, a34a40d in /repo):
+   * MergeLabels works on a copy of the served labels; nothing served changes before the save.
+   * weights are stored under two keys of their own, written before the meta record; when one of the
+     three writes fails the two keys are put back (best effort: the restoring writes are not faulted
+     here, a fault is a single failing write per operation).
+   * DeleteStore removes the two weight keys, then the record, and puts the keys back if that fails.
    * buryStore itself has no emptiness guard; checkStores (its only caller) has.
    * a storage write can fail before it is applied (FBefore) or after (FAfter, unknown outcome). *)
 From Coq Require Import String Ascii.
@@ -46,71 +43,44 @@ Fixpoint lower (s : string) : string :=
 (* strings.EqualFold on ASCII keys *)
 Definition fold_eq (a b : string) : bool := String.eqb (lower a) (lower b).
 
-(* a served label slot: (cell identity, label). Equal identities = the same Go struct. *)
-Definition lcell := (nat * label)%type.
-Definition renumber (l : list label) : list lcell := combine (seq 0 (length l)) l.
-Definition labels_of (c : list lcell) : list label := map snd c.
-
-(* capacity of a slice of n pointers that was built by appending one element at a time
-   (gogo Unmarshal, proto.Clone's table merge, and the harness's own construction) *)
-Definition cap_of (n : nat) : nat :=
-  if Nat.eqb n 0 then 0%nat else if Nat.leb n 1 then 1%nat else if Nat.leb n 2 then 2%nat
-  else if Nat.leb n 4 then 4%nat else if Nat.leb n 8 then 8%nat else if Nat.leb n 16 then 16%nat else n.
-
-Fixpoint find_cell (k : string) (w : list lcell) : option nat :=
+(* first loop of MergeLabels (on a copy of the served labels): the first label whose key matches, ignoring
+   case, takes the new value; an unknown key is appended *)
+Fixpoint set_first (k v : string) (w : list label) : option (list label) :=
   match w with
   | [] => None
-  | (c, (k', _)) :: r => if fold_eq k' k then Some c else find_cell k r
+  | (k', v') :: r =>
+      if fold_eq k' k then Some ((k', v) :: r)
+      else match set_first k v r with Some r' => Some ((k', v') :: r') | None => None end
   end.
-Definition set_cell (c : nat) (v : string) (w : list lcell) : list lcell :=
-  map (fun x : lcell => if Nat.eqb (fst x) c then (fst x, (fst (snd x), v)) else x) w.
-Definition fresh_cell (w : list lcell) : nat := S (fold_right (fun x m => Nat.max (fst x) m) 0%nat w).
-
-(* first loop of MergeLabels *)
-Fixpoint merge_phase1 (w : list lcell) (new : list label) : list lcell :=
+Fixpoint merge_phase1 (w : list label) (new : list label) : list label :=
   match new with
   | [] => w
   | (k, v) :: r =>
-      match find_cell k w with
-      | Some c => merge_phase1 (set_cell c v w) r
-      | None => merge_phase1 (w ++ [(fresh_cell w, (k, v))]) r
+      match set_first k v w with
+      | Some w' => merge_phase1 w' r
+      | None => merge_phase1 (w ++ [(k, v)]) r
       end
   end.
-Definition nonempty_val (x : lcell) : bool := negb (String.eqb (snd (snd x)) "").
-
-(* MergeLabels: (result, what the served slice shows afterwards) *)
-Definition merge_labels (served : list lcell) (cap : nat) (new : list label) : list label * list lcell :=
-  let n := length served in
-  let w := merge_phase1 served new in
-  let res := filter nonempty_val w in
-  let served' :=
-    if Nat.leb (length w) cap
-    then firstn n (res ++ skipn (length res) w)     (* compaction ran over the served backing array *)
-    else firstn n w in                               (* append re-allocated: only struct writes are shared *)
-  (labels_of res, served').
+Definition nonempty_val (x : label) : bool := negb (String.eqb (snd x) "").
+(* MergeLabels: labels with an empty value are dropped from the result *)
+Definition merge_labels (served new : list label) : list label := filter nonempty_val (merge_phase1 served new).
 
 Record meta := Meta { m_addr : string; m_state : sstate; m_pd : bool; m_labels : list label; m_ver : ver }.
 
 Record sstore := SStore {
-  s_addr : string; s_state : sstate; s_pd : bool; s_cells : list lcell;
-  s_cap : nat;                 (* capacity of the served label slice: next power of two when it was built by append
-                                  (Unmarshal, the request), exactly its length after proto.Clone *)
-  s_ver : ver;
+  s_addr : string; s_state : sstate; s_pd : bool; s_labels : list label; s_ver : ver;
   s_lw : Z; s_rw : Z;          (* leaderWeight, regionWeight (the harness uses integral weights) *)
   s_rcf : Z;                   (* StoreInfo.regionCount, refreshed by region heartbeats *)
-  s_hbp : bool;                (* lastPersistTime is set (NeedPersist is false for 5 minutes) *)
-  s_hb : bool                  (* a heartbeat arrived recently: the store is not IsUnhealthy (LastHeartbeat within 10 min) *)
+  s_hbp : bool                 (* lastPersistTime is set (NeedPersist is false for 5 minutes) *)
 }.
-Definition meta_of (x : sstore) : meta := Meta (s_addr x) (s_state x) (s_pd x) (labels_of (s_cells x)) (s_ver x).
+Definition meta_of (x : sstore) : meta := Meta (s_addr x) (s_state x) (s_pd x) (s_labels x) (s_ver x).
 
 Record state := State {
   served : amap sstore;              (* BasicCluster.Stores *)
   st_meta : amap meta;               (* storage: raft/s/<id> *)
   st_lw : amap Z; st_rw : amap Z;    (* storage: schedule/store_weight/<id>/{leader,region} *)
   regions : amap (list Z);           (* region id -> store ids holding a peer *)
-  cver : ver;                        (* cluster version (PersistOptions) *)
-  rolling : list Z;                  (* keys of hotStat.rollingStoresStats *)
-  crashed : bool                     (* the leader process died in a panic; nothing is served any more *)
+  cver : ver                         (* cluster version (PersistOptions) *)
 }.
 
 (* ---------- faults ---------- *)
@@ -159,35 +129,27 @@ Definition is_tomb (x : sstore) : bool := sstate_eqb (s_state x) Tombstone.
 Definition live (x : sstore) : bool := negb (is_tomb x) && negb (s_pd x).
 
 Definition set_served (s : state) (id : Z) (x : sstore) : state :=
-  State (aset (served s) id x) (st_meta s) (st_lw s) (st_rw s) (regions s) (cver s) (rolling s) (crashed s).
+  State (aset (served s) id x) (st_meta s) (st_lw s) (st_rw s) (regions s) (cver s).
 Definition del_served (s : state) (id : Z) : state :=
-  State (adel (served s) id) (st_meta s) (st_lw s) (st_rw s) (regions s) (cver s) (rolling s) (crashed s).
+  State (adel (served s) id) (st_meta s) (st_lw s) (st_rw s) (regions s) (cver s).
 Definition write_meta (s : state) (id : Z) (m : meta) : state :=
-  State (served s) (aset (st_meta s) id m) (st_lw s) (st_rw s) (regions s) (cver s) (rolling s) (crashed s).
+  State (served s) (aset (st_meta s) id m) (st_lw s) (st_rw s) (regions s) (cver s).
 Definition del_meta (s : state) (id : Z) : state :=
-  State (served s) (adel (st_meta s) id) (st_lw s) (st_rw s) (regions s) (cver s) (rolling s) (crashed s).
+  State (served s) (adel (st_meta s) id) (st_lw s) (st_rw s) (regions s) (cver s).
 Definition write_lw (s : state) (id w : Z) : state :=
-  State (served s) (st_meta s) (aset (st_lw s) id w) (st_rw s) (regions s) (cver s) (rolling s) (crashed s).
+  State (served s) (st_meta s) (aset (st_lw s) id w) (st_rw s) (regions s) (cver s).
 Definition write_rw (s : state) (id w : Z) : state :=
-  State (served s) (st_meta s) (st_lw s) (aset (st_rw s) id w) (regions s) (cver s) (rolling s) (crashed s).
+  State (served s) (st_meta s) (st_lw s) (aset (st_rw s) id w) (regions s) (cver s).
 Definition set_cver (s : state) (v : ver) : state :=
-  State (served s) (st_meta s) (st_lw s) (st_rw s) (regions s) v (rolling s) (crashed s).
-Definition set_rolling (s : state) (l : list Z) : state :=
-  State (served s) (st_meta s) (st_lw s) (st_rw s) (regions s) (cver s) l (crashed s).
-Definition set_crashed (s : state) : state :=
-  State (served s) (st_meta s) (st_lw s) (st_rw s) (regions s) (cver s) (rolling s) true.
-Definition roll_add (s : state) (id : Z) : state :=
-  if existsb (Z.eqb id) (rolling s) then s else set_rolling s (id :: rolling s).
-Definition roll_del (s : state) (id : Z) : state :=
-  set_rolling s (filter (fun i => negb (i =? id)) (rolling s)).
+  State (served s) (st_meta s) (st_lw s) (st_rw s) (regions s) v.
 Definition set_regions (s : state) (r : amap (list Z)) : state :=
-  State (served s) (st_meta s) (st_lw s) (st_rw s) r (cver s) (rolling s) (crashed s).
+  State (served s) (st_meta s) (st_lw s) (st_rw s) r (cver s).
 
 (* putStoreLocked: SaveStore (write number idx of this op on this store), then the cache *)
 Definition put_locked (s : state) (id : Z) (x : sstore) (f : fault) (idx : nat) : state * bool :=
   let '(applied, ok) := wr f id idx in
   let s1 := if applied then write_meta s id (meta_of x) else s in
-  if ok then (roll_add (set_served s1 id x) id, true) else (s1, false).   (* GetOrCreateRollingStoreStats *)
+  if ok then (set_served s1 id x, true) else (s1, false).
 
 (* onStoreVersionChangeLocked: raise the cluster version to the minimum over non-tombstone stores *)
 Definition min_ver (m : amap sstore) : option ver :=
@@ -219,15 +181,12 @@ Definition put_impl (s : state) (p : payload) (force : bool) (f : fault) : state
     if dup_addr s (p_id p) (p_addr p) then (s, RDupAddr) else
     match sv s (p_id p) with
     | None =>
-        let x := SStore (p_addr p) (p_state p) (p_pd p) (renumber (p_labels p)) (cap_of (length (p_labels p))) v 1 1 0 false false in
+        let x := SStore (p_addr p) (p_state p) (p_pd p) (p_labels p) v 1 1 0 false in
         let '(s1, ok) := put_locked s (p_id p) x f 0 in (s1, if ok then ROk else RStorage)
     | Some old =>
-        let '(ls, cells') := if force then (p_labels p, s_cells old) else merge_labels (s_cells old) (s_cap old) (p_labels p) in
-        (* the in-place effect of MergeLabels on the served store happens before anything can fail *)
-        let old' := SStore (s_addr old) (s_state old) (s_pd old) cells' (s_cap old) (s_ver old) (s_lw old) (s_rw old) (s_rcf old) (s_hbp old) (s_hb old) in
-        let s0 := set_served s (p_id p) old' in
-        let x := SStore (p_addr p) (s_state old) (s_pd old) (renumber ls) (length ls) v (s_lw old) (s_rw old) (s_rcf old) (s_hbp old) (s_hb old) in
-        let '(s1, ok) := put_locked s0 (p_id p) x f 0 in (s1, if ok then ROk else RStorage)
+        let ls := if force then p_labels p else merge_labels (s_labels old) (p_labels p) in
+        let x := SStore (p_addr p) (s_state old) (s_pd old) ls v (s_lw old) (s_rw old) (s_rcf old) (s_hbp old) in
+        let '(s1, ok) := put_locked s (p_id p) x f 0 in (s1, if ok then ROk else RStorage)
     end
   end.
 
@@ -242,7 +201,7 @@ Definition do_labels (s : state) (id : Z) (ls : list label) (force : bool) (f : 
   end.
 
 Definition with_state (x : sstore) (st : sstate) (pd : bool) : sstore :=
-  SStore (s_addr x) st pd (renumber (labels_of (s_cells x))) (length (s_cells x)) (s_ver x) (s_lw x) (s_rw x) (s_rcf x) (s_hbp x) (s_hb x).
+  SStore (s_addr x) st pd (s_labels x) (s_ver x) (s_lw x) (s_rw x) (s_rcf x) (s_hbp x).
 
 Definition do_remove (s : state) (id : Z) (pd : bool) (f : fault) : state * res :=
   match sv s id with
@@ -271,8 +230,7 @@ Definition do_bury (s : state) (id : Z) (f : fault) : state * res :=
       if is_tomb x then (s, ROk)
       else if sstate_eqb (s_state x) Up then (s, RIsUp)
       else let '(s1, ok) := put_locked s id (with_state x Tombstone (s_pd x)) f 0 in
-           let s2 := version_change s1 in
-           (if ok then roll_del s2 id else s2, if ok then ROk else RStorage)   (* RemoveRollingStoreStats only on success *)
+           (version_change s1, if ok then ROk else RStorage)
   end.
 
 (* checkStores: every offline store without region peers is buried; errors are only logged.
@@ -290,21 +248,44 @@ Definition check_one (f : fault) (acc : state) (id : Z) : state :=
 Definition do_check (s : state) (order : list Z) (f : fault) : state :=
   fold_left (check_one f) (order ++ map fst (served s)) s.
 
+(* put a weight key back to what it was: Save(old), or Remove when there was none *)
+Definition restore_w (m : amap Z) (id : Z) (old : option Z) : amap Z :=
+  match old with Some w => aset m id w | None => adel m id end.
+Definition restore_weights (s s0 : state) (id : Z) : state :=   (* s0: the state whose weight keys are to be restored in s *)
+  State (served s) (st_meta s) (restore_w (st_lw s) id (aget (st_lw s0) id)) (restore_w (st_rw s) id (aget (st_rw s0) id))
+        (regions s) (cver s).
+
+(* SetStoreWeight: leader key (write 0), region key (write 1), meta record (write 2).  When one of them fails the two
+   weight keys are put back: by SaveStoreWeight itself for its own writes, by SetStoreWeight (which saves the served
+   weights again) for the meta record.  The restoring writes come after the single failing write of the operation. *)
 Definition do_weight (s : state) (id lw rw : Z) (f : fault) : state * res :=
   match sv s id with
   | None => (s, RNotFound)
   | Some x =>
       let '(a0, ok0) := wr f id 0 in
       let s0 := if a0 then write_lw s id lw else s in
-      if negb ok0 then (s0, RStorage) else
+      if negb ok0 then (restore_weights s0 s id, RStorage) else
       let '(a1, ok1) := wr f id 1 in
       let s1 := if a1 then write_rw s0 id rw else s0 in
-      if negb ok1 then (s1, RStorage) else
-      let x' := SStore (s_addr x) (s_state x) (s_pd x) (renumber (labels_of (s_cells x))) (length (s_cells x)) (s_ver x) lw rw (s_rcf x) (s_hbp x) (s_hb x) in
-      let '(s2, ok) := put_locked s1 id x' f 2 in (s2, if ok then ROk else RStorage)
+      if negb ok1 then (restore_weights s1 s id, RStorage) else
+      let x' := SStore (s_addr x) (s_state x) (s_pd x) (s_labels x) (s_ver x) lw rw (s_rcf x) (s_hbp x) in
+      let '(s2, ok) := put_locked s1 id x' f 2 in
+      if ok then (s2, ROk) else (write_rw (write_lw s2 id (s_lw x)) id (s_rw x), RStorage)
   end.
 
 (* RemoveTombStoneRecords, following the iteration order the implementation took *)
+(* Storage.DeleteStore: leader key (write 0), region key (write 1), record (write 2); the keys are put back if one fails *)
+Definition delete_store (s : state) (id : Z) (f : fault) : state * bool :=
+  let '(a0, ok0) := wr f id 0 in
+  let s0 := if a0 then State (served s) (st_meta s) (adel (st_lw s) id) (st_rw s) (regions s) (cver s) else s in
+  if negb ok0 then (restore_weights s0 s id, false) else
+  let '(a1, ok1) := wr f id 1 in
+  let s1 := if a1 then State (served s0) (st_meta s0) (st_lw s0) (adel (st_rw s0) id) (regions s0) (cver s0) else s0 in
+  if negb ok1 then (restore_weights s1 s id, false) else
+  let '(a2, ok2) := wr f id 2 in
+  let s2 := if a2 then del_meta s1 id else s1 in
+  if negb ok2 then (restore_weights s2 s id, false) else (s2, true).
+
 Fixpoint clean_loop (s : state) (order : list Z) (f : fault) : state * res :=
   match order with
   | [] => (s, ROk)
@@ -312,8 +293,7 @@ Fixpoint clean_loop (s : state) (order : list Z) (f : fault) : state * res :=
       match sv s id with
       | Some x =>
           if is_tomb x && (s_rcf x <=? 0) then
-            let '(applied, ok) := wr f id 0 in
-            let s1 := if applied then del_meta s id else s in
+            let '(s1, ok) := delete_store s id f in
             if ok then clean_loop (del_served s1 id) r f else (s1, RStorage)
           else clean_loop s r f
       | None => clean_loop s r f
@@ -337,21 +317,14 @@ Definition do_heartbeat (s : state) (id : Z) (f : fault) : state * res :=
         (* NeedPersist: only when lastPersistTime is unset; a failed SaveStore is only logged *)
         let '(applied, ok) := if s_hbp x then (false, true) else wr f id 0 in
         let s1 := if applied then write_meta s id (meta_of x) else s in
-        let x' := SStore (s_addr x) (s_state x) (s_pd x) (renumber (labels_of (s_cells x))) (length (s_cells x)) (s_ver x)
-                         (s_lw x) (s_rw x) (s_rcf x) (s_hbp x || ok) true in
-        let s2 := roll_add (set_served s1 id x') id in      (* hotStat.Observe *)
-        (* hotStat.FilterUnhealthyStore: `cluster.GetStore(storeID).IsTombstone()` for every key of
-           rollingStoresStats, without a nil test: a key whose store record is gone is a nil dereference *)
-        if existsb (fun i => match sv s2 i with None => true | Some _ => false end) (rolling s2)
-        then (set_crashed s2, RPanic)
-        else (set_rolling s2 (filter (fun i => match sv s2 i with
-                                               | Some y => negb (is_tomb y) && s_hb y && negb (s_pd y)
-                                               | None => false end) (rolling s2)), ROk)
+        let x' := SStore (s_addr x) (s_state x) (s_pd x) (s_labels x) (s_ver x) (s_lw x) (s_rw x) (s_rcf x) (s_hbp x || ok) in
+        (* hotStat.Observe / FilterUnhealthyStore only touch statistics (a statistics entry whose store is gone is dropped) *)
+        (set_served s1 id x', ROk)
   end.
 
 Definition refresh_rcf (s : state) (id : Z) : state :=
   match sv s id with
-  | Some x => set_served s id (SStore (s_addr x) (s_state x) (s_pd x) (s_cells x) (s_cap x) (s_ver x) (s_lw x) (s_rw x) (tree_count s id) (s_hbp x) (s_hb x))
+  | Some x => set_served s id (SStore (s_addr x) (s_state x) (s_pd x) (s_labels x) (s_ver x) (s_lw x) (s_rw x) (tree_count s id) (s_hbp x))
   | None => s
   end.
 Definition do_region (s : state) (r : Z) (stores : list Z) : state :=
@@ -359,7 +332,7 @@ Definition do_region (s : state) (r : Z) (stores : list Z) : state :=
   let s1 := set_regions s (aset (regions s) r stores) in
   fold_left refresh_rcf (stores ++ old) s1.
 
-Definition run_cmd0 (s : state) (o : op) : state * res :=
+Definition run_cmd (s : state) (o : op) : state * res :=
   match o with
   | OPut grpc p f =>
       if grpc then
@@ -378,13 +351,9 @@ Definition run_cmd0 (s : state) (o : op) : state * res :=
   | OHeartbeat id f => do_heartbeat s id f
   | ORegion r stores => (do_region s r stores, ROk)
   end.
-(* once the process has panicked nothing is served any more *)
-Definition run_cmd (s : state) (o : op) : state * res :=
-  if crashed s then (s, RPanic) else run_cmd0 s o.
-
 (* ---------- observations ---------- *)
 Definition view_served (x : sstore) : view :=
-  View (s_addr x) (s_state x) (s_pd x) (labels_of (s_cells x)) (s_ver x) (s_lw x) (s_rw x) (s_rcf x).
+  View (s_addr x) (s_state x) (s_pd x) (s_labels x) (s_ver x) (s_lw x) (s_rw x) (s_rcf x).
 (* what LoadStores builds: the meta record plus the two weight keys (default 1) *)
 Definition view_stored (s : state) (id : Z) (m : meta) : view :=
   View (m_addr m) (m_state m) (m_pd m) (m_labels m) (m_ver m)
@@ -400,8 +369,8 @@ Definition run_op (s : state) (o : op) : state * obs :=
 (* the state right after a leader loaded a storage that holds exactly one store *)
 Definition boot (cv : ver) (p : payload) : state :=
   let v := match p_ver p with Some v => v | None => (0, 0, 0) end in
-  State [(p_id p, SStore (p_addr p) (p_state p) (p_pd p) (renumber (p_labels p)) (cap_of (length (p_labels p))) v 1 1 0 false false)]
-        [(p_id p, Meta (p_addr p) (p_state p) (p_pd p) (p_labels p) v)] [] [] [] cv [p_id p] false.
+  State [(p_id p, SStore (p_addr p) (p_state p) (p_pd p) (p_labels p) v 1 1 0 false)]
+        [(p_id p, Meta (p_addr p) (p_state p) (p_pd p) (p_labels p) v)] [] [] [] cv.
 
 (* ---------- equality of observations ---------- *)
 Definition label_eqb (a b : label) : bool := String.eqb (fst a) (fst b) && String.eqb (snd a) (snd b).
@@ -504,7 +473,7 @@ Definition count_regions (rg : amap (list Z)) (id : Z) : nat :=
 Definition mon_step (past : list op) (rg : amap (list Z)) (o : op) (prev cur : obs) : list string :=
   let ps := o_served prev in let cs := o_served cur in let st := o_stored cur in
   let ids := ids_of ps cs in
-  (* 0 the process must not die *)
+  (* 0 the process must not die (RPanic is only ever reported by the driver, the model never produces it) *)
   (if res_eqb (o_res cur) RPanic then ["C14:panic-heartbeat-after-tombstone-cleanup"] else []) ++
   (* 1 lifecycle is one-way *)
   (if forallb (fun id => move_ok o id (vget ps id) (vget cs id)) ids then [] else ["C14:illegal-lifecycle-move"]) ++
